@@ -404,4 +404,42 @@ theorem naiveLreal_antitone (c s β ε ε' δ δ' : ℝ) (m K : ℕ) (hK : 2 ≤
         apply mul_le_mul_of_nonneg_right _ (le_trans hlog0 hlog)
         linarith
 
+
+/-- **The default sample count is a genuine count: at least one round.**  For `K ≥ 2` designs, `m ≥ 1`
+objectives, `0 < δ ≤ 1` and positive `c, s, β, ε` the real number handed to `np.ceil` is strictly positive
+(the argument of the logarithm is at least `4`), so the default `L = ⌈·⌉` is a positive integer: the run
+samples every design at least once and `round == L` becomes true after finitely many steps.  (A
+reformulation of the logarithm's argument that can reach 0 or a negative value — `log(2mK(K−1)/δ)` at
+`K = 1` — has no such bound: `ceil(-inf).astype(int)` is −2⁶³ and the run never completes.) -/
+theorem naiveLreal_pos (c s β ε δ : ℝ) (m K : ℕ) (hK : 2 ≤ K) (hm : 1 ≤ m)
+    (hc : 0 < c) (hs : 0 < s) (hβ : 0 < β) (hε : 0 < ε) (hδ : 0 < δ) (hδ1 : δ ≤ 1) :
+    0 < naiveLreal c s β ε δ m K := by
+  rw [naiveLreal_real]
+  have hKK : (2 : ℝ) ≤ ((K * (K - 1) : ℕ) : ℝ) := by
+    have : 2 ≤ K * (K - 1) := by
+      have h1 : 1 ≤ K - 1 := by omega
+      calc 2 = 2 * 1 := by norm_num
+        _ ≤ K * (K - 1) := Nat.mul_le_mul hK h1
+    exact_mod_cast this
+  have hKpos : (0 : ℝ) < ((K * (K - 1) : ℕ) : ℝ) := by linarith
+  have hm4 : (4 : ℝ) ≤ ((4 * m : ℕ) : ℝ) := by
+    have : 4 ≤ 4 * m := by omega
+    exact_mod_cast this
+  have harg : (4 : ℝ) ≤ ((4 * m : ℕ) : ℝ) / (2 * δ / ((K * (K - 1) : ℕ) : ℝ)) := by
+    have hden : 0 < 2 * δ / ((K * (K - 1) : ℕ) : ℝ) := by positivity
+    rw [le_div_iff₀ hden]
+    have h2 : 2 * δ / ((K * (K - 1) : ℕ) : ℝ) ≤ 1 := by
+      rw [div_le_one hKpos]; linarith
+    nlinarith
+  have hlog : 0 < Real.log (((4 * m : ℕ) : ℝ) / (2 * δ / ((K * (K - 1) : ℕ) : ℝ))) :=
+    Real.log_pos (by linarith)
+  have hsq : 0 < 4 * (c * s * β / ε) ^ 2 := by positivity
+  exact mul_pos hsq hlog
+
+/-- non-vacuity: K = 2, m = 2, δ = 1/10, c = s = β = ε = 1 -/
+example : 0 < naiveLreal (1 : ℝ) 1 1 1 (1/10) 2 2 :=
+  naiveLreal_pos 1 1 1 1 (1/10) 2 2 (by norm_num) (by norm_num) one_pos one_pos one_pos one_pos
+    (by norm_num) (by norm_num)
+
+
 end VOPy.C08
